@@ -11,7 +11,6 @@ import (
 	"google.golang.org/grpc"
 	"google.golang.org/grpc/codes"
 	grpcstatus "google.golang.org/grpc/status"
-	"verifh/gen"
 	"verifh/sym"
 	"verifh/wire"
 )
@@ -45,7 +44,34 @@ func throughInterceptors(e error) (error, error) {
 // the direct EncodeError/DecodeError transfer; the status code is the attached
 // gRPC code (Unknown otherwise); nil and status errors pass unchanged.
 func H_C20_Interceptors(v *sym.V) {
-	switch v.Choice("case", 4) {
+	switch v.Choice("case", 6) {
+	case 4:
+		// a tree whose innermost leaf is a status error is an ordinary error
+		st := gogostatus.Error(codes.NotFound, "inner status")
+		var e error
+		switch v.Choice("statuswrap", 3) {
+		case 0:
+			e = errors.Wrap(st, "lookup failed")
+		case 1:
+			e = extgrpc.WrapWithGrpcCode(errors.WithDetail(st, "d"), codes.Internal)
+		case 2:
+			e = errors.WithHint(st, "h")
+		}
+		got, werr := throughInterceptors(e)
+		direct := wire.Hop(e)
+		v.Assert("wrapped-status-code", grpcstatus.Code(werr) == extgrpc.GetGrpcCode(e))
+		v.Assert("wrapped-status-text", got.Error() == direct.Error())
+		accessorsEqual(v, "wrapped-status", direct, got)
+		return
+	case 5:
+		// nested codes: the outermost one wins, whatever its value
+		inner, outer := v.Uint32("inner"), v.Uint32("outer")
+		v.Assume(outer != 0)
+		e := extgrpc.WrapWithGrpcCode(errors.Wrap(extgrpc.WrapWithGrpcCode(errors.New("x"), codes.Code(inner)), "w"), codes.Code(outer))
+		got, werr := throughInterceptors(e)
+		v.Assert("nested-status-code", uint32(grpcstatus.Code(werr)) == outer)
+		v.Assert("nested-grpc-code", uint32(extgrpc.GetGrpcCode(got)) == outer)
+		return
 	case 0:
 		got, werr := throughInterceptors(nil)
 		v.Assert("nil-passes", got == nil && werr == nil)
@@ -58,7 +84,7 @@ func H_C20_Interceptors(v *sym.V) {
 		return
 	}
 	g := newG(v, sym.REGNN)
-	b := g.BuildUpTo("e", v.Param("D", 2), gen.Cat(gen.LibLeaves, []gen.Kind{gen.LStd, gen.LCtxCanceled, gen.LUserPlain, gen.LHandled, gen.LJoin}), gen.AllWrappers)
+	b := build(v, g, "e")
 	e := b.Err
 	want := extgrpc.GetGrpcCode(e)
 	if v.Choice("case2", 2) == 1 {
